@@ -109,6 +109,17 @@ func (s *Set) c03(w *simapi.Write, v *simapi.View) {
 	// (a) a write that starts / raises canary traffic needs the step's pods ready
 	if raised && networkKind(w.Key.Kind) && isController(w.Actor) && s.inRolling() {
 		s.count("c03_traffic_raises_checked", 1)
+		// (C04, judged at the same instant) the rule the controller writes must lead somewhere: the canary Service it
+		// points to selects the new revision, i.e. at least one of the live new-revision pods that exist right now
+		if svc := v.Get("Service", s.ns, s.canary); svc != nil && interp.Pinned(svc, interp.RevisionKeys...) != "" {
+			if tot, _ := s.newReady(v); tot > 0 {
+				s.count("c04_route_raise_selection_checks", 1)
+				if n, _ := interp.LivePods(v, s.ns, simapi.StrMap(svc, "spec.selector")); n == 0 {
+					s.violate("C04", "c04:route-raised-to-canary-service-selecting-no-pod:"+w.Key.Kind, fmt.Sprintf("%s %s raised canary traffic (share %d->%d, match %v->%v) at step %d while the canary Service %s (selector %v) selects none of the %d live new-revision pods",
+						w.Actor, w.Key, st.lastShare, cr.Share, st.lastMatch, cr.Match, s.step, s.canary, simapi.StrMap(svc, "spec.selector"), tot), w, nil)
+				}
+			}
+		}
 		stp := s.stepSpec(s.step)
 		R := s.replicasNow(v)
 		// the step's pods were reported ready for the size the workload had then; a scale event after that is
@@ -335,6 +346,12 @@ func held(wl simapi.Obj, kind string) bool {
 	case "statefulset", "advstatefulset":
 		p, ok := simapi.Int(wl, "spec.updateStrategy.rollingUpdate.partition")
 		return ok && p >= simapi.IntD(wl, "spec.replicas", 1)
+	case "daemonset":
+		if simapi.Bool(wl, "spec.updateStrategy.rollingUpdate.paused") {
+			return true
+		}
+		p, ok := simapi.Int(wl, "spec.updateStrategy.rollingUpdate.partition")
+		return ok && p > 0 && p >= simapi.IntD(wl, "status.desiredNumberScheduled", 0)
 	}
 	return false
 }
@@ -345,6 +362,9 @@ func holdStr(wl simapi.Obj, kind string) string {
 	}
 	if kind == "statefulset" || kind == "advstatefulset" {
 		return fmt.Sprintf("partition=%v", simapi.Path(wl, "spec.updateStrategy.rollingUpdate.partition"))
+	}
+	if kind == "daemonset" {
+		return fmt.Sprintf("partition=%v paused=%v", simapi.Path(wl, "spec.updateStrategy.rollingUpdate.partition"), simapi.Bool(wl, "spec.updateStrategy.rollingUpdate.paused"))
 	}
 	return fmt.Sprintf("partition=%v paused=%v", simapi.Path(wl, "spec.updateStrategy.partition"), simapi.Bool(wl, "spec.updateStrategy.paused"))
 }
@@ -382,7 +402,13 @@ func (s *Set) c11(w *simapi.Write, v *simapi.View) {
 		if cur < len(batches) && workloadImage(wl) != s.stableImg && workloadImage(wl) == s.bgTarget {
 			planned := interp.PlannedFloor(simapi.Path(batches[cur], "canaryReplicas"), R, s.S.Kind, s.S.Style)
 			tot, ready := s.newReady(v)
-			unsat := tot < planned || (ready < planned && simapi.Path(br, "spec.releasePlan.failureThreshold") == nil) || (planned > 0 && ready == 0)
+			// "ready ones within the failure threshold": the threshold is a share (or a number) of the updated pods
+			tol := 0
+			if ft := simapi.Path(br, "spec.releasePlan.failureThreshold"); ft != nil {
+				tol, _, _ = interp.Resolve(fmt.Sprint(ft), tot, true)
+				s.count("c11_ready_judged_with_failure_threshold", 1)
+			}
+			unsat := tot < planned || ready+tol < planned || (planned > 0 && ready == 0)
 			if !enteredReady && w.Before != nil && simapi.Str(w.Before, "status.observedReleasePlanHash") != simapi.Str(br, "status.observedReleasePlanHash") {
 				// the controller acknowledges a changed plan in this very write ("if the plan changes, the state falls
 				// back rather than staying Ready"): staying Ready is only right if the new plan is already met
@@ -415,8 +441,8 @@ func (s *Set) c11(w *simapi.Write, v *simapi.View) {
 			s.count("c11_ready_reports_checked", 1)
 			if tot < planned {
 				s.violate("C11", "c11:ready-without-enough-updated-pods", fmt.Sprintf("batch %d reported Ready with %d updated pods, plan calls for %d of %d", cur, tot, planned, R), w, nil)
-			} else if ready < planned && simapi.Path(br, "spec.releasePlan.failureThreshold") == nil {
-				s.violate("C11", "c11:ready-without-enough-ready-pods", fmt.Sprintf("batch %d reported Ready with %d ready updated pods, plan calls for %d of %d", cur, ready, planned, R), w, nil)
+			} else if ready+tol < planned {
+				s.violate("C11", "c11:ready-without-enough-ready-pods", fmt.Sprintf("batch %d reported Ready with %d ready of %d updated pods (failure threshold %v tolerates %d), plan calls for %d of %d", cur, ready, tot, simapi.Path(br, "spec.releasePlan.failureThreshold"), tol, planned, R), w, nil)
 			} else if planned > 0 && ready == 0 {
 				s.violate("C11", "c11:ready-with-zero-ready-pods", fmt.Sprintf("batch %d reported Ready with no ready updated pod", cur), w, nil)
 			}
@@ -453,7 +479,10 @@ func (s *Set) c11(w *simapi.Write, v *simapi.View) {
 				}
 			}
 			mu := s.userMaxUnavailable(R)
-			if tot[img] < R || old > 0 || ready[img] < R-mu || (R >= 1 && ready[img] < 1) {
+			// "every pod is updated and ready": no live pod of another revision is left, and of the pods the user asks for
+			// at most maxUnavailable are missing or unready (a pod that a recreate-update has deleted and not yet
+			// re-created is unavailable, not "not updated" - the reading the controllers' own wait helpers use)
+			if old > 0 || tot[img] < R-mu || ready[img] < R-mu || (R >= 1 && ready[img] < 1) {
 				s.violate("C11", fmt.Sprintf("c11:completed-before-all-updated-and-ready:%s/%s", s.S.Kind, s.S.Style),
 					fmt.Sprintf("BatchRelease reported Completed (policy %q) while pods are: updated %d/%d, ready updated %d, ready old-revision %d (maxUnavailable %d)", policy, tot[img], R, ready[img], old, mu), w, nil)
 			}
@@ -523,7 +552,11 @@ func (s *Set) c18(w *simapi.Write, v *simapi.View) {
 				case s.brAtExit == "none" || s.brAtExit == "deleting":
 					cls = "while-batchrelease-being-removed"
 				}
-				if cls != "" {
+				if s.workload(v) == nil {
+					// recorded family: the user deleted the workload in the middle of the release, the Rollout reset its
+					// status to Initial and has forgotten what it had configured
+					s.violate("C18", "c18:rollout-finalizer-removed-after-workload-deleted", fmt.Sprintf("%s removed the Rollout finalizer after the workload had been deleted mid-release, while cleanup is incomplete: %v", w.Actor, res), w, res)
+				} else if cls != "" {
 					s.violate("C18", "c18:rollout-finalizer-removed-when-no-live-batchrelease:"+cls, fmt.Sprintf("%s removed the Rollout finalizer while cleanup is incomplete (%s): %v", w.Actor, cls, res), w, res)
 				} else {
 					s.violate("C18", "c18:rollout-finalizer-removed-before-cleanup:"+firstWord(res[0]), fmt.Sprintf("%s removed the Rollout finalizer while cleanup is incomplete: %v", w.Actor, res), w, res)
@@ -635,8 +668,15 @@ func (s *Set) residue(v *simapi.View, ownerLinkedOK bool) []string {
 			out = append(out, "canary-deployment exists: "+simapi.Name(d))
 		}
 	}
-	if br := v.Get("BatchRelease", s.ns, s.S.RolloutName()); br != nil && !gcWill(br) {
-		out = append(out, "batchrelease exists")
+	brGuarded := false
+	if br := v.Get("BatchRelease", s.ns, s.S.RolloutName()); br != nil {
+		if !gcWill(br) {
+			out = append(out, "batchrelease exists")
+		} else if hasFinalizer(br, "rollouts.kruise.io/batch-release-finalizer") {
+			// the garbage collector cannot finish this one: the BatchRelease controller still has to run its own teardown
+			// (the Rollout controller itself waits for the object to be gone before it reports the last task done)
+			brGuarded = true
+		}
 	}
 	if wl := s.workload(v); wl != nil {
 		for _, a := range []string{"rollouts.kruise.io/in-progressing", "batchrelease.rollouts.kruise.io/control-info", "rollouts.kruise.io/deployment-strategy", "rollouts.kruise.io/original-deployment-strategy", "rollouts.kruise.io/deployment-extra-status"} {
@@ -677,12 +717,26 @@ func (s *Set) residue(v *simapi.View, ownerLinkedOK bool) []string {
 			out = append(out, "custom-object original-spec-configuration annotation")
 		}
 	}
+	if brGuarded {
+		out = append(out, "batchrelease-still-guarded by its own finalizer")
+	}
 	return out
 }
 
 func gcOwnerGone(v *simapi.View, owner simapi.Obj, roUID string) bool {
 	for _, u := range simapi.OwnerUIDs(owner) {
 		if u == roUID {
+			return true
+		}
+		// the owner's own owner (the Rollout) is already gone from the API
+		found := false
+		for _, k := range v.Keys() {
+			if simapi.UID(v.GetKey(k)) == u {
+				found = true
+				break
+			}
+		}
+		if !found {
 			return true
 		}
 	}
